@@ -2006,7 +2006,7 @@ impl Prop for C20 {
             some.push(atom(&root));
             some.push(atom("Nope"));
             qs.push(Sexp::call("one-of", some));
-            // a name listed twice in the `one_of` argument (F-C20-1: the rows are reported twice)
+            // a name listed twice in the `one_of` argument (F-C20-1, fixed: the rows must be reported once)
             let twice = names[rng.below(names.len())].clone();
             qs.push(Sexp::call("one-of", vec![atom(&twice), atom(&names[0]), atom(&twice)]));
             for q in qs {
